@@ -684,6 +684,8 @@ def main():
                 if len(cap) >= 1:
                     case["model_req"] = f"lut rsqrt {zi} {zo} {cap[0][0]} {cap[0][1]}"
                     cfg["captured"] = cap[:1]
+                # TFLite reference Rsqrt kernel incl. its own derivation of the multiplier from the two float32 scales
+                case["chk_prefix"] = "rsqrtchk %d %d %d %d" % (zi, zo, *(struct.unpack("<I", struct.pack("<f", float(np.float32(v))))[0] for v in (si, so)))
             else:
                 optype = Op.Sigmoid if kind == "sigmoid" else Op.Tanh
 
@@ -738,6 +740,12 @@ def main():
         model_ok = mout.startswith("ok")
         model_vals = [int(v) for v in mout.split()[1:]] if model_ok else None
         chk = touts[c["ci"]] if c["ci"] is not None else None
+        chk_key = None
+        if kind == "rsqrt" and chk is not None:
+            if chk.startswith("1 "):
+                chk = "1"
+            elif chk.startswith("0 zero-input-only") and cfg["zp_in"] != -128:
+                chk_key = "rsqrt-lut-zero-input-entry-not-max-unless-zp-in-is-minus-128"
         if kind == "hswish":
             ck.count("hswish_relu_shift_%s" % ("lt31" if cfg["relu_shift"] < 31 else ("eq31" if cfg["relu_shift"] == 31 else "gt31")))
         if kind in ("sigmoid", "tanh"):
@@ -785,10 +793,10 @@ def main():
         if same:
             if chk is not None and chk not in ("1", "na"):
                 # model and code agree, reference kernel differs: a proof obligation (model = reference) must have failed too
-                if (kind, "ref") not in tab_reported:
-                    tab_reported.add((kind, "ref"))
+                if (kind, "ref", chk_key) not in tab_reported:
+                    tab_reported.add((kind, "ref", chk_key))
                     ck.violation(f"{kind} table differs from the Lean reference kernel ({chk}) although model and code agree",
-                                 {"kind": "table", **cfg, "reference_verdict": chk, "table": c["real"][:512]})
+                                 {"kind": "table", **cfg, "reference_verdict": chk, "table": c["real"][:512]}, key=chk_key)
             if chk is not None:
                 ck.count(f"table_{kind}_reference_{'ok' if chk == '1' else ('na' if chk == 'na' else 'reject')}")
             continue
